@@ -87,6 +87,11 @@ CHECKS["C17"] = ("DESIGN §4 C17",
     "every configuration and every load history up to the bound runs on the real model / staggered solver; oracles: numpy eigh positive parts, closed-form psi+, partition identities, running maximum of the reference psi+ for the history field, monotone saved damage",
     "trusted: numpy.linalg.eigh; states with an eigenvalue gap in (1e-10, 1e-3) relative would be skipped and counted (none occur)")
 
+CHECKS["C09"] = ("DESIGN §4 C09",
+    "exhaustive enumeration of simulation x element type x mesh variant x load kind (point, line, surface, volume, pressure) x intensity form (constant, nodal array, every monomial up to the rule's degree) x node selection (full face, two faces, sub-part, face + stray nodes, all) x thickness; beams: theory x SEG order x dimension x member orientation",
+    "every configuration of the stated alphabets is applied through the real load API and the produced nodal force vector is summed; linear in the density, so the monomial basis decides polynomial loads; reference integrals from own geometry and own Gauss-Legendre/Duffy rules",
+    "trusted: zoo/c09_geom.py reference geometry and quadrature (independent of EasyFEA tables); tolerance 1e-10 x integral of |g|")
+
 PENDING_REASON = "not claimed yet: the bounded-exhaustive check for this property is designed (DESIGN.md §4) but not built in the committed tree"
 
 
